@@ -544,7 +544,7 @@ def mon_merged(scn, run):
             if r not in top_devs or r in a["roots"]:
                 continue
             asked_cb = any(u["comp"] == r and u["n"] < a["n"] and u.get("call_at") == b["time"] for u in ups) and \
-                not any(u["comp"] == r and u["n"] < a["n"] and u.get("call_at") not in (None, b["time"]) and u["n"] > max([x["n"] for x in ups if x["comp"] == r and x.get("call_at") == b["time"]], default=0) for u in ups)
+                not any(u["comp"] == r and u["n"] < a["n"] and u.get("call_at") not in (None, b["time"]) and u["n"] > max([x["n"] for x in ups if x["comp"] == r and x["n"] < a["n"] and x.get("call_at") == b["time"]], default=0) for u in ups)
             asked_int = any(x["comp"] == r and x["step"] <= a["step"] - 2 for x in raises) and not any(c2["n"] < a["n"] and r in c2["roots"] and c2["n"] > max([x["n"] for x in raises if x["comp"] == r and x["n"] < a["n"]], default=0) for c2 in calls)
             if asked_cb or asked_int:
                 out.append(V("same-time-not-merged", f"two master ticks @{a['time']}: roots {a['roots']} then {b['roots']}, although {r} was already due when the first one started", comp=r))
